@@ -213,6 +213,27 @@ def commit_rule(ck, F, h, loop):
         ck.ok('CM', 'single commit() at bb%d: after the loop, on every Ok path; %d post-loop blocks touch the reader nowhere else' % (cbb, len(region)), where_of(b, cbb))
 
 
+def macroblock_count(ck, F):
+    ck.rule('MC', 'the macroblock count the loop is bounded by is ceil(width/16) * ceil(height/16): both factors tabulated over every u16 dimension (with Rust integer / exact f64 semantics)')
+    from ..bitslice import Table
+    from ..loopexpr import Norm, show as nshow, find as nfind
+    from . import c02
+    b = F.body(CLO); T = Table(F, CLO, paths=False, cast_kinds=True); N = Norm(T)
+    W = ('fld', ('f', 'try', ('f', 'ok_or', ('f', 'into_width_and_height', ('v', 'format')), ('agg', 'PictureFormatInvalid'))), (0,))
+    H = ('fld', W[1], (1,))
+    byname = {}
+    for l, nm in T.names.items(): byname.setdefault(nm, []).append(int(l))
+    for nm, var, axis in (('mb_per_line', W, 'width'), ('mb_height', H, 'height')):
+        ds = [d for l in byname.get(nm, []) for d in T.local_defs(l) if d[2] is not None]
+        if len(ds) != 1:
+            ck.violation('MC', 'MC : %s : definition' % nm, where_of(b), 'expected one definition of %s, found %d' % (nm, len(ds))); continue
+        raw = ds[0][2]; term = N.n(raw)
+        msg = c02.typed_tab(T, N, raw, var, 'u16', lambda x: (x + 15) // 16)
+        if msg == 'float': msg = c02.tab_equal(term, var, lambda x: (x + 15) // 16) if nfind(term, lambda z: z == var) else 'does not depend on the %s' % axis
+        if msg is None: ck.ok('MC', '%s = %s = ceil(%s/16) for every %s in 0..=65535 (tabulated)' % (nm, nshow(term), axis, axis), where_of(b, ds[0][0]))
+        else: ck.violation('MC', 'MC : %s : form' % nm, where_of(b, ds[0][0]), '%s = %s is not ceil(%s/16): %s' % (nm, nshow(term), axis, msg))
+
+
 def picture_start(ck, F):
     ck.rule('PS', 'decode_picture starts a picture by skipping the stuffing bits recognize_start_code reports plus the 17 start-code bits: with fewer than eight zero bits of '
                   'padding after the previous picture, the header is read from its first bit')
@@ -263,3 +284,4 @@ def run(ck, F, tier):
     c14.b_lookahead(s14, F)
     c14.f_start_code(s14, F)
     picture_start(ck, F)
+    macroblock_count(ck, F)
